@@ -50,6 +50,7 @@ class _Ctx:
         self.rng = rng
         self.p = prof
         self.used_msg = set()
+        self.auto = []      # (service full name, method name, [auto-populated field names])
 
     def chance(self, key):
         return self.rng.random() < self.p.get(key, 0.0)
@@ -193,6 +194,9 @@ def gen_api(rng, prof=None):
         svc = rng.choice(services)
         _gen_methods(cx, pkg, main, svc, noun, resources[noun], enums, msgs)
 
+    if p.get("p_auto_populate", 0) > 0:
+        _add_auto_populated(cx, pkg, files, services)
+
     # make sure every service has at least one method
     for s in services:
         if not s["methods"]:
@@ -210,6 +214,42 @@ def gen_api(rng, prof=None):
     if cx.chance("p_yaml") or need_ops_mixin or p.get("p_auto_populate", 0) > 0:
         spec["service_yaml"] = gen_service_yaml(cx, spec, host, need_ops_mixin)
     return spec
+
+
+def _add_auto_populated(cx, pkg, files, services):
+    """AIP-4235: give some unary methods 1-2 auto-populated UUID4 request fields (plain or proto3
+    optional), sometimes also listed in a method_signature; decoys: an annotated field that is NOT
+    listed in the settings, and a listed method with an empty field list."""
+    rng = cx.rng
+    for s in services:
+        for m in s["methods"]:
+            if m.get("client_streaming") or m.get("server_streaming"):
+                continue
+            if not m["input"].startswith("." + pkg + "."):
+                continue
+            if not cx.chance("p_auto_populate"):
+                continue
+            req = None
+            for f in files:
+                for mm in f["messages"]:
+                    if "." + pkg + "." + mm["name"] == m["input"]:
+                        req = mm
+            if req is None or any(f["name"] in ("request_id", "client_token") for f in req["fields"]):
+                continue
+            base = max(f["number"] for f in req["fields"]) + 1
+            names = ["request_id"] + (["client_token"] if rng.random() < 0.3 else [])
+            for i, n in enumerate(names):
+                f = {"name": n, "number": base + i, "type": "string", "uuid4": True}
+                if rng.random() < 0.5:
+                    f["optional"] = True
+                req["fields"].append(f)
+            if rng.random() < 0.3:     # decoy: annotated but not listed
+                req["fields"].append({"name": "trace_id", "number": base + 5, "type": "string", "uuid4": True})
+            if rng.random() < 0.5 and "signatures" in m and m["signatures"]:
+                m["signatures"] = [m["signatures"][0] + ",request_id"] + m["signatures"][1:]
+            elif rng.random() < 0.3 and "signatures" not in m:
+                m["signatures"] = ["request_id"]
+            cx.auto.append((f"{pkg}.{s['name']}", m["name"], names))
 
 
 def _path_prefix(cx):
@@ -644,6 +684,19 @@ def gen_service_yaml(cx, spec, host, need_ops):
         if rng.random() < 0.4:
             y["http"]["rules"].append({"selector": "google.longrunning.Operations.DeleteOperation",
                                        "delete": "/v1/{name=projects/*/operations/*}"})
+    if cx.auto or rng.random() < 0.2:
+        ms = []
+        for svc, meth, names in cx.auto:
+            ms.append({"selector": f"{svc}.{meth}", "auto_populated_fields": list(names)})
+        # other entries without auto-populated fields (legal; e.g. long_running settings)
+        others = [(fs["package"] + "." + s["name"], m["name"]) for fs, s, m in all_methods(spec)
+                  if (fs["package"] + "." + s["name"], m["name"]) not in {(a, b) for a, b, _ in cx.auto}]
+        rng.shuffle(others)
+        for svc, meth in others[:rng.randint(0, 2)]:
+            ms.append({"selector": f"{svc}.{meth}"})
+        rng.shuffle(ms)
+        if ms:
+            y["publishing"] = {"method_settings": ms}
     if not y["apis"]:
         del y["apis"]
     if not y["http"]["rules"]:
